@@ -2,6 +2,7 @@ import EaModel.DstParam
 import EaModel.Lemmas.Zone
 import EaModel.Lemmas.DstYear
 import EaModel.Lemmas.DstYearEU
+import EaModel.Lemmas.DstYear2
 /-!
 # C20 — a time of day accepted without DST policy is safe for the whole year
 
@@ -264,6 +265,21 @@ theorem accepted_safe_all_year_zEU70 (t : Int) (h0 : 0 ≤ t) (h1 : t < NS_PER_D
 #guard (checkDst zEU70 1970 (3 * NS_PER_HOUR) none none).toOption == some (.after, .earlier)
 #guard (checkDst zEU70 1970 (2 * NS_PER_HOUR + 30 * NS_PER_MIN) none none).toOption.isNone
 #guard (checkDst zEU70 1970 (2 * NS_PER_HOUR + 30 * NS_PER_MIN) (some .skip) none).toOption.isNone
+
+/-- a second regular zone-year, with the shape of America/New_York 2021: the skipped hour (02) and the repeated hour
+(01) differ. `twoZone_year_regular` (`Lemmas/DstYear2.lean`) derives the two analytic clauses of `YearRegular` for EVERY
+table with one forward change that skips exactly one clock hour and one backward change that repeats exactly one
+clock hour; only the two clauses about the scan are evaluated per zone-year -/
+theorem accepted_safe_all_year_zUS21 (t : Int) (h0 : 0 ≤ t) (h1 : t < NS_PER_DAY) (fwd : Option Skipped)
+    (bwd : Option Repeated) (r : Skipped × Repeated) (h : checkDst zUS21 2021 t fwd bwd = .ok r) :
+    (fwd = none → ∀ D, InYear21 D → zUS21.validity (D * NS_PER_DAY + t) ≠ .skipped) ∧
+    (bwd = none → ∀ D, InYear21 D → zUS21.validity (D * NS_PER_DAY + t) ≠ .repeated) :=
+  accepted_safe_all_year zUS21 2021 InYear21 zUS21_year_regular t h0 h1 fwd bwd r h
+-- 01:30 (repeated on 7 November) is rejected without a backward policy and accepted with one; 02:30 needs a forward policy
+#guard (checkDst zUS21 2021 (1 * NS_PER_HOUR + 30 * NS_PER_MIN) none none).toOption.isNone
+#guard (checkDst zUS21 2021 (1 * NS_PER_HOUR + 30 * NS_PER_MIN) none (some .twice)).toOption == some (.after, .twice)
+#guard (checkDst zUS21 2021 (2 * NS_PER_HOUR + 30 * NS_PER_MIN) none (some .twice)).toOption.isNone
+#guard (checkDst zUS21 2021 (4 * NS_PER_HOUR) none none).toOption == some (.after, .earlier)
 
 /-- the scan orders of the code (read from the imported source on every run) -/
 theorem scan_orders : Gen.dstMonthOrder = [3, 4, 11, 9, 10] ∧ Gen.dstHourOrder = [2, 3, 0, 1] := by decide
